@@ -6325,6 +6325,13 @@ static void general_invoke_callback(int decode_args_from_libffi,
                  "during handling of the above exception by 'onerror'",
                  NULL, NULL);
             _cffi_stop_error_capture(ecap);
+            /* if it is the conversion of onerror's result that failed, it
+               may have written a part of it already: the error value is
+               what must be returned */
+            if (SIGNATURE(1)->ct_size > 0) {
+                memcpy(result, PyBytes_AS_STRING(py_rawerr),
+                               PyBytes_GET_SIZE(py_rawerr));
+            }
         }
     }
     goto done;
